@@ -332,4 +332,15 @@ func TestC01(t *testing.T) {
 	hx.Rapid(r, t, "free_running_sessions", r.N(600, 8000), genFreeRunning, frProp(t, r, "free_running_sessions"))
 
 	hx.Rapid(r, t, "churn", r.N(2500, 25000), func(rt *rapid.T) script { return genScript(rt, c01Profile) }, c01Prop(t, r, "churn"))
+	// every OnEstablished has its OnClose by the return of Server.Close - of either of two
+	// overlapping calls (shared with C10)
+	hx.Enum(r, t, "two_closes", 0, func(yield func(c10Twice) bool) {
+		for _, out := range []bool{false, true} {
+			for _, after := range []int64{0, 10, 40, 100, 150, 300} {
+				if !yield(c10Twice{Out: out, SpinUs: 400, AfterUs: after}) {
+					return
+				}
+			}
+		}
+	}, c10TwiceProp(t, r, "two_closes"))
 }
